@@ -414,3 +414,39 @@ Print Assumptions c10_e2e_all_options_link.
 Print Assumptions c10_e2e_repeated_tracker_once.
 Print Assumptions c10_e2e_needs_host_readback.
 Print Assumptions c10_e2e_needs_depth.
+
+(* ================================================================== X10: the tracker hypothesis, concretely *)
+
+(** In [c10_own_parser_roundtrip] the url crate enters through the hypothesis that it returns each tracker unchanged.
+    With the concrete model of `Url::parse` + `as_str` (Model/UrlNorm.v, proved in Proofs/UrlNormProofs.v and compared with
+    the `url_norm` hook by ./check C05) that hypothesis is a theorem for every tracker written in normal form
+    ([is_normal_url], syntactic), and for every text the model returns; [ext] is whatever the crate does outside the
+    modelled fragment (IDNA, `file:`, URLs without `//`), arbitrary. *)
+From Imdl Require Import Model.HostPort Model.UrlHost Model.UrlNorm Proofs.UrlNormProofs Proofs.UrlNormUses.
+
+Theorem c10_normal_trackers_are_fixed : forall ext ts,
+  forallb is_normal_url ts = true -> Forall (fun t => u_url_norm_with ext t = Some t) ts.
+Proof. exact url_norm_with_fixed_all. Qed.
+
+Theorem c10_stored_trackers_are_fixed : forall ext t u,
+  u_norm t = Some (Some u) -> u_url_norm_with ext t = Some u /\ u_url_norm_with ext u = Some u.
+Proof. exact url_norm_with_stored. Qed.
+
+Theorem c10_own_parser_roundtrip_normal_trackers : forall lossy ext hp_norm l,
+  wf_link l -> length (l_ih l) = 20%nat ->
+  (forall s, ascii s -> lossy s = s) -> utf8_fixed lossy l ->
+  forallb is_normal_url (l_trackers l) = true ->
+  Forall (fun p => hp_norm p = Some p) (l_peers l) ->
+  own_parse lossy (u_url_norm_with ext) hp_norm (print l) = Parsed (l_ih l) (l_name l) (l_trackers l) (l_peers l).
+Proof. exact own_parser_roundtrip_normal_trackers. Qed.
+
+Example c10_normal_tracker_instances :
+  forallb is_normal_url [B "http://foo.com/announce"; B "udp://tracker.example:6969"; B "http://t.example/announce?x=1&y=%20+z#f";
+                         B "udp://[::1]:1337/announce"] = true /\
+  u_norm (B "HTTP://EXAMPLE.COM:80/A?b=c") = Some (Some (B "http://example.com/A?b=c")).
+Proof. split; vm_compute; reflexivity. Qed.
+
+Print Assumptions c10_normal_trackers_are_fixed.
+Print Assumptions c10_stored_trackers_are_fixed.
+Print Assumptions c10_own_parser_roundtrip_normal_trackers.
+Print Assumptions c10_normal_tracker_instances.
